@@ -182,7 +182,10 @@ def extra_checks(ck, tier, rng):
     (Spec/BstTyping.check, model function 2) accepts must not raise a foreign Python exception"""
     from collections import Counter
     cases = [(st, arg) for (st, fn, arg) in _CASES if st not in ('exhaustive', 'exhaustive4')]
-    verdicts = ck.model.run([(2, [arg[0]]) for (_, arg) in cases], ck.rundir)
+    import re
+    def entry_types(bib):
+        return sorted(set(t.lower() for t in re.findall(r'@\s*([^\s{(@,=]+)\s*[{(]', bib)) - {'comment', 'string', 'preamble'})
+    verdicts = ck.model.run([(2, norm([arg[0], entry_types(S(arg[2]))])) for (_, arg) in cases], ck.rundir)
     acc = [(st, arg) for (st, arg), v in zip(cases, verdicts) if v[:1] == [1]]
     outs = [p[0] if isinstance(p, tuple) else p for p in run_impl({1: impl_run}, [(1, arg) for (_, arg) in acc])]
     per = Counter(); accd = Counter(); kinds = Counter()
